@@ -9,6 +9,10 @@ def compare(prop, line, impl, model):
     # plain model pass answers `fed` for them
     if line.startswith("cal_law ") and model == "fed":
         return True
+    # C03: a panic or an internal-assertion error is the violation itself; that the as-coded model predicts it
+    # (the model mirrors the code, assertion sites included) does not make it acceptable
+    if prop == "C03" and impl == model and (impl == "err assert" or impl.startswith("panic")):
+        return False
     return impl == model
 
 
@@ -401,3 +405,37 @@ def _r_pdt_from_first(t, impl, expected):
     date-time range; the conversion cannot fail, so it returns the out-of-range value."""
     return (t[0] == "pdt_from_pd" and t[1:4] == ["-271821", "4", "19"] and impl == "ok -271821 4 19 0 0 0 0 0 0 valid=0"
             and expected == "ok -271821 4 19 0 0 0 0 0 0 valid=1")
+
+
+def _dur_fields_valid(f):
+    """IsValidDuration on a list of ten Python floats (exact: integral doubles are converted to ints)."""
+    if any(x != x or x in (float("inf"), float("-inf")) or x != int(x) for x in f):
+        return False
+    n = [int(x) for x in f]
+    if any(x > 0 for x in n) and any(x < 0 for x in n):
+        return False
+    if any(abs(x) >= 2 ** 32 for x in n[:3]):
+        return False
+    total = (abs(n[3]) * 86400 + abs(n[4]) * 3600 + abs(n[5]) * 60 + abs(n[6])) * 10 ** 9 + abs(n[7]) * 10 ** 6 \
+        + abs(n[8]) * 10 ** 3 + abs(n[9])
+    return total < 2 ** 53 * 10 ** 9
+
+
+@region("duration-record-unvalidated")
+def _r_duration_record_unvalidated(t, impl, expected):
+    """A Duration assembled from the public records without validation (`Duration::from(TimeDuration)`,
+    `Duration::from(DateDuration)`, `Duration::from_day_and_time`, whose fields are public) that is NOT a valid
+    duration: the i128 normalisation of its time part overflows or trips its debug assertion."""
+    if t[0] != "sw_durraw" or len(t) != 11:
+        return False
+    if not impl.startswith("panic@repo/src/builtins/core/duration/normalized.rs:"):
+        return False
+    try:
+        f = [float(x) for x in t[1:]]
+    except ValueError:
+        return False
+    z = [0.0] * 10
+    date_only = f[:4] + z[4:]
+    time_only = z[:4] + f[4:]
+    day_time = z[:3] + f[3:]
+    return not all(_dur_fields_valid(x) for x in (date_only, time_only, day_time))
